@@ -378,15 +378,31 @@ def _gen_table(rng, names, used_tables, used_cnames, nc, thorough, family=None):
         for __ in range(rng.choice([1, 1, 2])):
             x = rng.random()
             c = pool.pop() if pool else rng.choice(cn)
-            if x < 0.6:
+            if x < 0.45:
                 elems.append({"col": c})
-            elif x < 0.72:
+            elif x < 0.53:
                 elems.append({"text": rng.choice(["(lower(name))", "lower(name)", "name DESC", "(qty + 1)", "(name || 'x%')"])})
-            elif x < 0.88:
-                elems.append({"func": [rng.choice(["lower", "upper", "abs"]), c]})
-            else:
+            elif x < 0.63:
+                e = {"func": [rng.choice(["lower", "upper", "abs"]), c]}
+                if rng.random() < 0.3:
+                    e["label"] = rng.choice(["lbl", "my label", "it's"])
+                elems.append(e)
+            elif x < 0.70:
                 elems.append({"desc": c})
-        if not any("col" in e or "func" in e or "desc" in e for e in elems):
+            elif x < 0.82:
+                # sqlalchemy.literal_column(...): a ColumnClause that is NOT a table column
+                e = {"litcol": rng.choice(["lower(name)", "(lower(name))", "name", "qty + 1", "upper(code) DESC", "it's", "a b", "coalesce(note, 'x')"])}
+                if rng.random() < 0.2:
+                    e["label"] = rng.choice(["lbl", "x y"])
+                elems.append(e)
+            elif x < 0.88:
+                # sqlalchemy.column('x'): lightweight column, not bound to the table
+                elems.append({"lwcol": rng.choice(["name", "qty", "MixedCase", "a b", "select", "it's"])})
+            elif x < 0.94:
+                elems.append({"cast": c})
+            else:
+                elems.append({"collate": c})
+        if not any(k in e for e in elems for k in ("col", "func", "desc", "cast", "collate")):
             elems.insert(0, {"col": rng.choice(cn)})
         ix = {"name": _cname(rng, names, used_cnames, nc, allow_none=False, ix=True), "elems": elems, "unique": rng.random() < 0.3, "kw": {}}
         x = rng.random()
@@ -625,9 +641,19 @@ def _index_elem(t, e):
     if "text" in e:
         return sa.text(e["text"])
     if "func" in e:
-        return getattr(sa.func, e["func"][0])(t.c[e["func"][1]])
+        x = getattr(sa.func, e["func"][0])(t.c[e["func"][1]])
+        return x.label(e["label"]) if e.get("label") else x
     if "desc" in e:
         return t.c[e["desc"]].desc()
+    if "litcol" in e:
+        x = sa.literal_column(e["litcol"])
+        return x.label(e["label"]) if e.get("label") else x
+    if "lwcol" in e:
+        return sa.column(e["lwcol"])
+    if "cast" in e:
+        return sa.cast(t.c[e["cast"]], sa.String(30))
+    if "collate" in e:
+        return t.c[e["collate"]].collate("C")
     raise ValueError(e)
 
 
@@ -843,7 +869,7 @@ def _rename(spec, old, new):
         for ix in t.get("indexes", []):
             ix["name"] = _fixname(ix["name"], old, new)
             for e in ix["elems"]:
-                for k in ("col", "desc"):
+                for k in ("col", "desc", "cast", "collate"):
                     if k in e:
                         e[k] = fix(e[k])
                 if "func" in e:
@@ -876,7 +902,7 @@ def _rename_scoped(spec, scope, old, new):
         u["cols"] = [new if x == old else x for x in u["cols"]]
     for ix in t.get("indexes", []):
         for e in ix["elems"]:
-            for k in ("col", "desc"):
+            for k in ("col", "desc", "cast", "collate"):
                 if e.get(k) == old:
                     e[k] = new
             if "func" in e and e["func"][1] == old:
@@ -949,7 +975,7 @@ def shrink_candidates(spec):
             refd = refd or any(cname in u["cols"] for u in t.get("uniques", []))
             refd = refd or any(cname in fk["cols"] for fk in t.get("fks", []))
             refd = refd or any(fk["reftable"] == ti and cname in fk["refcols"] for t2 in spec["tables"] for fk in t2.get("fks", []))
-            refd = refd or any(cname in (e.get("col"), e.get("desc")) or (e.get("func") or [None, None])[1] == cname for ix in t.get("indexes", []) for e in ix["elems"])
+            refd = refd or any(cname in (e.get("col"), e.get("desc"), e.get("cast"), e.get("collate")) or (e.get("func") or [None, None])[1] == cname for ix in t.get("indexes", []) for e in ix["elems"])
             for ix in t.get("indexes", []):
                 ikw = ix.get("kw") or {}
                 if cname in ikw.get("postgresql_include", []):
